@@ -75,6 +75,8 @@ mod test_runner;
 mod type_defs;
 mod values;
 mod version;
+#[cfg(wilfred_garden_verif)]
+mod verif;
 mod wrap_in_dbg;
 
 use std::path::{Path, PathBuf};
@@ -296,6 +298,9 @@ enum CliCommands {
         #[clap(long, default_value = "127.0.0.1")]
         host: String,
     },
+    /// Run a batch of inputs in-process for the verification harness.
+    #[cfg(wilfred_garden_verif)]
+    VerifBatch { mode: String, path: PathBuf },
 }
 
 fn main() {
@@ -703,6 +708,10 @@ fn main() {
         CliCommands::Nrepl { port, host } => {
             init_tracing();
             nrepl::run_nrepl(&host, port, interrupted);
+        }
+        #[cfg(wilfred_garden_verif)]
+        CliCommands::VerifBatch { mode, path } => {
+            verif::run_batch(&mode, &path);
         }
     }
 }
